@@ -81,6 +81,16 @@ def asc(x):
     return str(x).encode('ascii', errors='replace').decode('ascii')
 
 
+def flat(x):
+    """the text as it can appear inside ONE comment line: line breaks (str.splitlines) collapsed to spaces"""
+    return asc(" ".join(str(x).splitlines()))
+
+
+def shown(x, c):
+    """x appears in the comment c, verbatim or with its line breaks collapsed"""
+    return asc(x) in c or flat(x) in c or flat(x).strip() in c
+
+
 # ---------------------------------------------------------------------------
 # OPB oracle
 
@@ -113,7 +123,7 @@ def check_opb(text, F, what, export_header=False, export_varnames=False, header_
         labels = list(F.all_variable_labels())
         for vid, lab in enumerate(labels, start=1):
             pat = re.compile(r'(?<![A-Za-z0-9_])x{}(?![0-9])'.format(vid))
-            if not any(pat.search(c) and str(lab) in c[pat.search(c).end():] for c in res.comments):
+            if not any(pat.search(c) and (str(lab) in c[pat.search(c).end():] or flat(lab).strip() in asc(c[pat.search(c).end():])) for c in res.comments):
                 raise Violation("{}: export_varnames=True but no comment maps x{} to its name {!r}".format(what, vid, lab))
     if header_content and not export_header and not export_varnames and res.comments:
         # the doctests of to_opb() pin the output without header and names: spec line and constraints only
@@ -129,7 +139,7 @@ def check_opb(text, F, what, export_header=False, export_varnames=False, header_
         for k, v in F.header.items():
             if ' object at 0x' in str(v):
                 continue          # a description that prints an object address (C07's business) differs between builds
-            if not any(asc(k) in c and asc(v) in c for c in res.comments):
+            if not any(shown(k, c) and shown(v, c) for c in res.comments):
                 raise Violation("{}: export_header=True but header field {!r}: {!r} is in no comment".format(what, k, v))
     return res
 
